@@ -5,8 +5,9 @@ import PpciVerif.Model.Py2Ir
 The builder is an append-only event log.  `SegP A nb nv nb' nv' seg` describes the events `seg`
 appended by one call that started with `nb` blocks / `nv` values and ended with `nb'` / `nv'`:
 every jump target is a block created by the call or one of the externally given targets `A`;
-every phi sits in a block created by the call and its inputs (`incoming` events) come from exactly
-the blocks whose terminators target that block, in the same order; every `incoming` event belongs
+every phi sits in a block `b` created by the call and its inputs (`incoming` events) come from exactly
+the blocks whose terminators target that block, in the same order: one block in front of the loop and
+block `b + 2` (the increment block that `gen_for` creates right after the test and body blocks); every `incoming` event belongs
 to a phi created by the call.
 -/
 namespace Proofs.Py2IrCFG
@@ -37,7 +38,7 @@ structure SegP (A : List Nat) (nb nv nb' nv' : Nat) (seg : List Event) : Prop wh
   nv_le : nv ≤ nv'
   tg : ∀ b i, Event.emit b i ∈ seg → ∀ t ∈ i.targets, (nb ≤ t ∧ t < nb') ∨ t ∈ A
   ph : ∀ b d ty, Event.emit b (.phi d ty) ∈ seg →
-        nb ≤ b ∧ b < nb' ∧ nv ≤ d ∧ d < nv' ∧ srcs seg b = phiIns seg d
+        nb ≤ b ∧ b < nb' ∧ nv ≤ d ∧ d < nv' ∧ ∃ e, srcs seg b = [e, b + 2] ∧ phiIns seg d = [e, b + 2]
   inc : ∀ p b v, Event.incoming p b v ∈ seg → nv ≤ p ∧ p < nv'
 
 /-- no jump of the segment targets `t` -/
@@ -113,13 +114,15 @@ theorem SegP.append {A nb nv nb1 nv1 nb2 nv2 s1 s2} (h1 : SegP A nb nv nb1 nv1 s
     · obtain ⟨b1, b2, b3, b4, b5⟩ := h1.ph b d ty he
       have e1 : srcs s2 b = [] := h2.srcs_nil b (by omega) (fun hb => by have := hA b hb; omega)
       have e2 : phiIns s2 d = [] := h2.phiIns_nil d (by omega)
-      rw [e1, e2, b5]
-      exact ⟨by omega, by omega, by omega, by omega, rfl⟩
+      obtain ⟨e, b5, b6⟩ := b5
+      rw [e1, e2, b5, b6]
+      exact ⟨by omega, by omega, by omega, by omega, e, by simp, by simp⟩
     · obtain ⟨b1, b2, b3, b4, b5⟩ := h2.ph b d ty he
       have e1 : srcs s1 b = [] := h1.srcs_nil b (by omega) (fun hb => by have := hA b hb; omega)
       have e2 : phiIns s1 d = [] := h1.phiIns_nil d (by omega)
-      rw [e1, e2, b5]
-      exact ⟨by omega, by omega, by omega, by omega, rfl⟩
+      obtain ⟨e, b5, b6⟩ := b5
+      rw [e1, e2, b5, b6]
+      exact ⟨by omega, by omega, by omega, by omega, e, by simp, by simp⟩
   · intro p b v he
     rcases List.mem_append.1 he with he | he
     · have := h1.inc p b v he; omega
@@ -197,15 +200,19 @@ theorem SegP.forLoop (L : List Nat) (nb nv entryB : Nat) (iInit n2 addr : Val) (
     · -- the loop phi itself
       simp at he
       obtain ⟨rfl, rfl, rfl⟩ := he
-      refine ⟨by omega, by omega, by omega, by omega, ?_⟩
-      simp only [srcs_append, phiIns_append, hsB, hpB]
-      simp [srcs, phiIns, Instr.targets]
-    · obtain ⟨b1, b2, b3, b4, b5⟩ := hB.ph b d ty he
-      refine ⟨by omega, by omega, by omega, by omega, ?_⟩
-      simp only [srcs_append, phiIns_append, b5]
-      have hb' : b ≠ nb ∧ b ≠ nb + 1 ∧ b ≠ nb + 2 ∧ b ≠ nb + 3 := by omega
-      have hd' : nv ≠ d := by omega
-      simp [srcs, phiIns, Instr.targets, hb'.1, hb'.2.1, hb'.2.2.1, hb'.2.2.2, hd']
+      refine ⟨by omega, by omega, by omega, by omega, entryB, ?_, ?_⟩
+      · simp only [srcs_append, hsB]
+        simp [srcs, Instr.targets]
+      · simp only [phiIns_append, hpB]
+        simp [phiIns]
+    · obtain ⟨b1, b2, b3, b4, e, b5, b6⟩ := hB.ph b d ty he
+      refine ⟨by omega, by omega, by omega, by omega, e, ?_, ?_⟩
+      · simp only [srcs_append, b5]
+        have hb' : b ≠ nb ∧ b ≠ nb + 1 ∧ b ≠ nb + 2 ∧ b ≠ nb + 3 := by omega
+        simp [srcs, Instr.targets, hb'.1, hb'.2.1, hb'.2.2.1, hb'.2.2.2]
+      · simp only [phiIns_append, b6]
+        have hd' : nv ≠ d := by omega
+        simp [phiIns, hd']
     · simp at he
   · intro p b v he
     simp only [List.mem_append, List.mem_cons, List.not_mem_nil, or_false, reduceCtorEq, false_or, or_false,
@@ -947,5 +954,60 @@ theorem genStmt_step (isProc : Bool) (s : PStmt) :
       have s2 := ihb st1 st' (by intro t ht; rw [s1.2] at ht; exact Nat.lt_of_lt_of_le (hA t ht) s1.nb_le) h
       rw [s1.2] at s2
       exact s1.trans s2 hA
+
+
+/-! ### whole functions -/
+
+theorem genParams_step (ps : List (String × Ty)) :
+    ∀ (i : Nat) (st st' : St), genParams ps i st = .ok st' → Step [] st st' := by
+  induction ps with
+  | nil =>
+    intro i st st' h
+    simp only [genParams, Except.ok.injEq] at h
+    subst h; exact Step.refl [] st
+  | cons p ps ih =>
+    intro i st st' h
+    obtain ⟨x, t⟩ := p
+    simp only [genParams] at h
+    cases hg : getVariable st x (some t) with
+    | error er => simp [hg] at h
+    | ok r =>
+      obtain ⟨var, st1⟩ := r
+      simp only [hg] at h
+      have s1 := getVariable_step [] st x (some t) var st1 hg
+      have s2 : Step [] st1 (st1.emit (.store (.param i) var.addr)) := Step.emitPlain st1 _ rfl (by simp)
+      have s3 := ih (i + 1) _ st' h
+      exact (s1.trans s2 (by simp)).trans s3 (by simp)
+
+/-- the complete event log of a generated function -/
+theorem genFunctionSt_step (params : List (String × Ty)) (ret : Option Ty) (body : PStmt) (st : St)
+    (h : genFunctionSt params ret body = .ok st) : SegP [] 1 0 st.nblocks st.nvals st.log := by
+  simp only [genFunctionSt] at h
+  cases hp : genParams params 0 initSt with
+  | error er => simp [hp] at h
+  | ok st0 =>
+    simp only [hp] at h
+    cases hb : genStmt ret.isNone body st0 with
+    | error er => simp [hb] at h
+    | ok st1 =>
+      simp only [hb] at h
+      have s0 := genParams_step params 0 initSt st0 hp
+      have l0 : st0.loops = [] := s0.2
+      have s1 := genStmt_step ret.isNone body st0 st1 (by rw [l0]; simp [loopTargets]) hb
+      rw [l0] at s1
+      have s01 : Step [] initSt st1 := s0.trans (by simpa [loopTargets] using s1) (by simp)
+      have fin : ∀ st2, Step [] st1 st2 → SegP [] 1 0 st2.nblocks st2.nvals st2.log := by
+        intro st2 s2
+        obtain ⟨⟨seg, hl, hs⟩, _⟩ := s01.trans s2 (by simp)
+        simp only [initSt, List.nil_append] at hl hs
+        rw [hl]; exact hs
+      split at h
+      · simp only [Except.ok.injEq] at h; subst h; exact fin st1 (Step.refl [] st1)
+      · split at h
+        · split at h
+          · simp only [Except.ok.injEq] at h; subst h; exact fin st1 (Step.refl [] st1)
+          · simp at h
+        · simp only [Except.ok.injEq] at h; subst h
+          exact fin _ (Step.emitPlain st1 .exit rfl (by simp))
 
 end Proofs.Py2IrCFG
